@@ -823,6 +823,19 @@ def _writes_face_ids(fn):
     return out
 
 
+def _through_reference(fn, e):
+    """the object a reference local designates (a reference is bound once, at its declaration)"""
+    x = strip(e)
+    for _ in range(4):
+        if x.get("k") == "DeclRefExpr" and (x.get("ref") or {}).get("dk") == "Var":
+            v = [v_ for v_ in walk(fn["body"]) if v_.get("k") == "Var" and v_.get("did") == x["ref"].get("did") and (v_.get("t") or "").rstrip().endswith("&") and isinstance(v_.get("init"), dict)]
+            if len(v) == 1:
+                x = strip(v[0]["init"])
+                continue
+        break
+    return x
+
+
 def normal_follows_winding(rep, prog):
     fns = product_fns(prog)
     # 1. direct writers
@@ -856,11 +869,11 @@ def normal_follows_winding(rep, prog):
                 kind = dirty[c["callee"]]
                 if kind == "this":
                     o = call_obj(c)
-                    what = render(o) if o is not None else "this"
+                    what = render(_through_reference(fn, o)) if o is not None else "this"
                 elif kind == "all":
                     what = "*"
                 else:
-                    what = render(call_args(c)[kind])
+                    what = render(_through_reference(fn, call_args(c)[kind]))
                 fi = fi or prog.index(fn)
                 # refreshers after the call, unconditionally w.r.t. the call, with no exit in between
                 good = None
@@ -871,7 +884,9 @@ def normal_follows_winding(rep, prog):
                         if what in ("*", "this"):
                             continue
                         ra = render(call_args(r)[0])
-                        if not (ra == what or what.replace(" ", "") == "face_lst_[%s]" % ra.replace(" ", "")):
+                        ra_obj = render(_through_reference(fn, call_args(r)[0]))
+                        canon = lambda t_: t_.replace(" ", "").replace("this->", "").split("->")[-1]
+                        if not (ra == what or ra_obj == what or canon(ra_obj) == canon(what) or canon(what) == "face_lst_[%s]" % ra.replace(" ", "")):
                             continue
                     anc_r = [id(p_) for p_, _, _ in fi.ancestors(r) if p_.get("k") in ("IfStmt", "ForStmt", "WhileStmt", "DoStmt", "CXXForRangeStmt", "SwitchStmt", "LambdaExpr", "ConditionalOperator")]
                     anc_c = {id(p_) for p_, _, _ in fi.ancestors(c)}
